@@ -41,6 +41,14 @@ theorem position_lf (src : Src) (idx : Int) (h : Spec.cleanAt src (idx - 1) = tr
     simp only [hn, hr, if_true, if_false]
 
 
+/-- a syntax error recorded by `(*parser).error(idx, …)` carries `p.position(idx)`: for every source and every
+    offset in it this is the §7.3 line and column (all four line terminators, <CR><LF> counted once).
+    (That the offset handed to `error` is the offending token's is established by the correspondence stream
+    `synerr`, not proved.) -/
+theorem syntax_error_position (src : Src) (off : Nat) (h : off ≤ src.length) :
+    parserPosition src off = Spec.walk (src.take off) 0 1 1 := lineCount_spec src off h
+
+
 /-- Dev `position_cr`: after a lone <CR> (or <LS>/<PS>) `file.Position` stays on the old line. -/
 example : Spec.cleanAt [0x61, 13, 0x62] 2 = false ∧
     filePosition [0x61, 13, 0x62] 1 3 ≠ Spec.positionAt [0x61, 13, 0x62] 2 := by decide
@@ -338,6 +346,29 @@ theorem trace_limit (f : Frame) (outer : Stack) (limit : Int) (atv : Option Int)
 theorem trace_limit_visits (f : Frame) (outer : Stack) (n : Nat) (atv : Option Int) :
     (newErrorTrace (f :: outer) ((n : Int) + 1) 0 atv).tail = (outer.take n).filter nonneg := by
   simp [newErrorTrace, popScopes, walkOuter_limited]
+
+
+/-- apart from the innermost frame, a frame whose recorded offset is negative (call through a callee that is
+    not an identifier / dot / bracket expression records -1) never appears in a trace: the caller is dropped -/
+theorem trace_drops_unrecorded (s : Stack) (limit : Int) : ∀ f ∈ walkOuter s limit, f.offset ≥ 0 := by
+  induction s generalizing limit with
+  | nil => intro f hf; simp [walkOuter] at hf
+  | cons g r ih =>
+    intro f hf
+    simp only [walkOuter] at hf
+    split at hf
+    · simp at hf
+    · split at hf
+      · rcases List.mem_cons.mp hf with h | h
+        · subst h; assumption
+        · exact ih _ f h
+      · exact ih _ f hf
+
+/-- `SetStackTraceLimit(0)` (or any negative limit) means no limit: `limit--` never meets 0 -/
+theorem trace_limit_zero_unlimited (f : Frame) (outer : Stack) (limit : Int) (h : limit ≤ 0) :
+    newErrorTrace (f :: outer) limit 0 none = f :: outer.filter nonneg := by
+  simp [newErrorTrace, popScopes, walkOuter_unlimited outer limit h]
+
 
 /-- non-vacuity of `trace_complete_partial`: f calls g through a method, g reads an undefined variable -/
 example :
